@@ -395,6 +395,185 @@ def build():
         canaries=[lambda ex, env: env["g_new"].fields["cell_range"].ln == 0]))
 
 
+    # ------------------------------------------------------------------ calculate_merge_cell_ranges: what a reopened document reports
+    # Every rectangle of the stored merge region map is registered - its anchor at the unpacked (row, column) with the unpacked (height,
+    # width), one reference per covered cell carrying the rectangle - whatever the formula-dependency records have already contributed;
+    # a merge-owner dependency record of this table registers its rectangle the same way.
+    ORG, SIZ = z3.Function("C12_map_origin", Int, Int), z3.Function("C12_map_size", Int, Int)
+    OWN = z3.Function("C12_owner_table", Int, Int)
+
+    class IdxList(Custom):
+        """a stored repeated field: item k is made by `make(ex, k)`"""
+        def __init__(self, n, make):
+            self.n, self.make = n, make
+
+        def length(self, ex):
+            return self.n
+
+        def getitem(self, ex, idx, line):
+            return self.make(ex, T(idx))
+
+    class ObjsCM(Custom):
+        def __init__(self):
+            self.known = []  # (key term, object)
+
+        def getitem(self, ex, idx, line):
+            k = T(idx)
+            for kt, o in self.known:
+                if k.eq(kt):
+                    return o
+            ex.oblige(f"objects-key@L{line}: the object store is read with the table's id, a dependency archive's id or the table's merge map id", z3.BoolVal(False), "ghost", line)
+            raise Unsupported("objects[...] with an unrelated key")
+
+    class OwnerMapV(Custom):
+        def getitem(self, ex, idx, line):
+            return wrap(OWN(T(idx)))
+
+    class MergeCellsByTable(Custom):
+        def __init__(self, table_id, log):
+            self.table_id, self.log = table_id, log
+
+        def getitem(self, ex, idx, line):
+            if not T(idx).eq(T(self.table_id)):
+                ex.oblige(f"merge-state-of-this-table@L{line}: rectangles are registered with the table being read", z3.BoolVal(False), "ghost", line)
+            return self.log
+
+    def cm_entry(ex):
+        table_id, base, mapid = ex.fresh("int", "table_id"), ex.fresh("int", "table_base_id"), ex.fresh("int", "merge_map_id")
+        ndeps, nranges = z3.Int(fresh_name("n_dependency_archives")), z3.Int(fresh_name("n_map_ranges"))
+        ex.assume(z3.And(ndeps >= 0, nranges >= 0, T(mapid) >= 0))
+        objs = ObjsCM()
+
+        def mk_record(ex, k):
+            f = {n: ex.fresh("int", n) for n in ("top_left_row", "top_left_column", "bottom_right_row", "bottom_right_column")}
+            return PObj("RangeRecordV", {"internal_range_reference": PObj("RangeRefV", {"owner_id": ex.fresh("int", "owner_id"), "range": PObj("RectV", f)})})
+
+        def mk_dep_id(ex, k):
+            did = ex.fresh("int", "dependency_archive_id")
+            nrec = z3.Int(fresh_name("n_records"))
+            ex.assume(nrec >= 0)
+            objs.known.append((T(did), PObj("DependenciesV", {"owner_kind": ex.fresh("int", "owner_kind"),
+                                                              "range_dependencies": PObj("RangeDepsV", {"back_dependency": IdxList(nrec, mk_record)})})))
+            return did
+
+        def mk_range(ex, k):
+            ex.assume(z3.And(ORG(k) >= 0, SIZ(k) >= 0))
+            return PObj("CellRangeV", {"origin": PObj("PackedV", {"packedData": wrap(ORG(k))}), "size": PObj("PackedV", {"packedData": wrap(SIZ(k))}), "g_k": wrap(k)})
+        table = PObj("TableModelV", {"base_data_store": PObj("BDSV", {"merge_region_map": PObj("ReferenceV", {"identifier": mapid})})})
+        objs.known.append((T(table_id), table))
+        objs.known.append((T(mapid), PObj("MergeRegionMapV", {"cell_range": IdxList(nranges, mk_range)})))
+        log = PObj("MergeLogV", {"anchors": wrap(z3.Int(fresh_name("anchors_before"))), "refs": wrap(z3.Int(fresh_name("refs_before"))),
+                                 "last_anchor": tuple(wrap(z3.IntVal(-1)) for _ in range(4)), "last_ref": tuple(wrap(z3.IntVal(-1)) for _ in range(6))})
+        model = PObj("ModelCM", {"objects": objs, "_merge_cells": MergeCellsByTable(table_id, log), "g_base": base, "g_deps": IdxList(ndeps, mk_dep_id)})
+        return {"self": model, "table_id": table_id, "g_log": log, "g_mapid": mapid, "g_nranges": wrap(nranges), "g_base": base}
+    mm12[("ModelCM", "owner_id_map")] = lambda ex, o, a, k, l: OwnerMapV()
+    mm12[("ModelCM", "table_base_id")] = lambda ex, o, a, k, l: o.fields["g_base"]
+    mm12[("ModelCM", "find_refs")] = lambda ex, o, a, k, l: o.fields["g_deps"]
+
+    def cm_add_reference(ex, o, a, k, l):
+        rect = a[2]
+        if not (isinstance(rect, tuple) and len(rect) == 4):
+            ex.oblige(f"reference-carries-a-rectangle@L{l}", z3.BoolVal(False), "ghost", l)
+            return None
+        o.fields["last_ref"] = (a[0], a[1]) + tuple(rect)
+        o.fields["refs"] = wrap(T(o.fields["refs"]) + 1)
+        return None
+
+    def cm_add_anchor(ex, o, a, k, l):
+        size = a[2]
+        if not (isinstance(size, tuple) and len(size) == 2):
+            ex.oblige(f"anchor-carries-a-size@L{l}", z3.BoolVal(False), "ghost", l)
+            return None
+        o.fields["last_anchor"] = (a[0], a[1]) + tuple(size)
+        o.fields["anchors"] = wrap(T(o.fields["anchors"]) + 1)
+        return None
+    mm12[("MergeLogV", "add_reference")] = cm_add_reference
+    mm12[("MergeLogV", "add_anchor")] = cm_add_anchor
+    mm12[("MergeLogV", "merge_cells")] = lambda ex, o, a, k, l: ex.fresh("bool", "some_rectangles_already_known")
+
+    def cm_havoc(tag):
+        def hv(ex, env):
+            lg = ex.entry_env["g_log"].fields
+            lg["anchors"], lg["refs"] = wrap(z3.Int(fresh_name("anchors"))), wrap(z3.Int(fresh_name("refs")))
+            lg["last_anchor"] = tuple(wrap(z3.Int(fresh_name("la"))) for _ in range(4))
+            lg["last_ref"] = tuple(wrap(z3.Int(fresh_name("lr"))) for _ in range(6))
+            ex.entry_env[f"g_a_{tag}"], ex.entry_env[f"g_r_{tag}"] = lg["anchors"], lg["refs"]
+        return hv
+
+    def lg(ex):
+        return ex.entry_env["g_log"].fields
+
+    def tup_eq(got, want):
+        return z3.And(*[T(g) == w for g, w in zip(got, want)])
+
+    def nonneg(x):
+        return z3.If(x >= 0, x, 0)
+
+    def cm_pre5(ex, env):
+        ex.entry_env["g_a0"] = lg(ex)["anchors"]
+
+    def a0(ex):
+        return T(ex.entry_env["g_a0"])
+    # dependency records (loops 1-4)
+    def cm_step2(ex, env):
+        rr = env["record"].fields["internal_range_reference"].fields
+        rg = rr["range"].fields
+        tlr, tlc, brr, brc = (T(rg[n]) for n in ("top_left_row", "top_left_column", "bottom_right_row", "bottom_right_column"))
+        mine = OWN(T(rr["owner_id"])) == T(ex.entry_env["g_base"])
+        before = T(ex.entry_env["g_a_2"])
+        if "_r3" not in env:  # the rectangle was not walked on this path: only right for a record of another table
+            return z3.And(z3.Not(mine), T(lg(ex)["anchors"]) == before)
+        return z3.If(mine, z3.And(T(lg(ex)["anchors"]) == before + 1, tup_eq(lg(ex)["last_anchor"], (tlr, tlc, brr - tlr + 1, brc - tlc + 1)),
+                                  T(env["_r3"]) == nonneg(brr + 1 - tlr)),
+                     T(lg(ex)["anchors"]) == before)
+
+    def cm_step3(ex, env):
+        return z3.And(T(env["row"]) == T(env["row_start"]) + T(env["_r3"]), T(env["_c4"]) == nonneg(T(env["col_end"]) + 1 - T(env["col_start"])))
+
+    def cm_step_cell(idx, tag):
+        def st(ex, env):
+            want = tuple(T(env[n]) for n in ("row", "col", "row_start", "col_start", "row_end", "col_end"))
+            return z3.And(T(env["col"]) == T(env["col_start"]) + T(env[idx]), tup_eq(lg(ex)["last_ref"], want),
+                          T(lg(ex)["refs"]) == T(ex.entry_env[f"g_r_{tag}"]) + 1)
+        return st
+    # merge region map (loops 5-7)
+    def cm_inv_map(inner):
+        def inv(ex, env):
+            k = T(env["_k"])
+            return z3.And(T(lg(ex)["anchors"]) == a0(ex) + k, k >= 0, *([k < env["g_nranges"].t] if inner else []))
+        return inv
+
+    def cm_step5(ex, env):
+        k = T(env["_k"])
+        r0, c0, h, w = ORG(k) % 65536, ORG(k) / 65536, SIZ(k) % 65536, SIZ(k) / 65536
+        return z3.And(T(lg(ex)["anchors"]) == a0(ex) + k + 1, tup_eq(lg(ex)["last_anchor"], (r0, c0, h, w)), T(env["_r6"]) == h,
+                      T(env["row_start"]) == r0, T(env["col_start"]) == c0, T(env["row_end"]) == r0 + h - 1, T(env["col_end"]) == c0 + w - 1)
+
+    def cm_step6(ex, env):
+        k = T(env["_k"])
+        return z3.And(T(env["row"]) == T(env["row_start"]) + T(env["_r6"]), T(env["_c7"]) == SIZ(k) / 65536)
+
+    def cm_post(ex, env):
+        if "g_a0" not in ex.entry_env:  # the region map was not walked on this path: only right when the table has none
+            return T(env["g_mapid"]) == 0
+        return z3.Implies(T(env["g_mapid"]) != 0, T(lg(ex)["anchors"]) == a0(ex) + env["g_nranges"].t)
+    cm_post.__name__ = ("when the table has a merge region map, every one of its rectangles is registered (one anchor per stored range, in addition to "
+                        "whatever the dependency records contributed)")
+
+    def keep2(ex, env):
+        return T(lg(ex)["anchors"]) == T(ex.entry_env["g_a_2"])
+    plan.target(Contract(
+        "model:_NumbersModel.calculate_merge_cell_ranges", entry=cm_entry, ensures=[cm_post], safety="fork",
+        search=lambda plan_, c: {"custom": "search_reopen_merges", "native_module": plan_.native_module},
+        loops={1: LoopSpec([lambda ex, env: z3.BoolVal(True)], index="_d", havoc=[cm_havoc(1)]),
+               2: LoopSpec([lambda ex, env: z3.BoolVal(True)], index="_q", havoc=[cm_havoc(2)], steps=[cm_step2]),
+               3: LoopSpec([keep2], index="_r3", havoc=[cm_havoc(3), lambda ex, env: ex.assume(keep2(ex, env))], steps=[cm_step3]),
+               4: LoopSpec([keep2], index="_c4", havoc=[cm_havoc(4), lambda ex, env: ex.assume(keep2(ex, env))], steps=[cm_step_cell("_c4", 4)]),
+               5: LoopSpec([cm_inv_map(False)], index="_k", pre=[cm_pre5], havoc=[cm_havoc(5)], steps=[cm_step5]),
+               6: LoopSpec([cm_inv_map(True)], index="_r6", havoc=[cm_havoc(6)], steps=[cm_step6]),
+               7: LoopSpec([cm_inv_map(True)], index="_c7", havoc=[cm_havoc(7)], steps=[cm_step_cell("_c7", 7)])},
+        canaries=[lambda ex, env: z3.And(T(env["g_mapid"]) != 0, env["g_nranges"].t == 2)]))
+
     # ------------------------------------------------------------------ Table.write: the written cell keeps the merge state of ITS position
     class GridW(Custom):
         """self._data of Table.write: one store at (row, col), later reads of the same position return the stored cell"""
@@ -487,4 +666,7 @@ def build():
                         "against the table limits (refuted for rows >= 65536: open known finding F-C12-3, so discharged < obligations); "
                         "the whole-document picture (all cells of the rectangle, outside untouched, merge_ranges, reload, writes and "
                         "insert/delete after a merge) is a bounded run-time-contract stand-in (open known finding F-C12-2).")
+    for c_ in plan.targets:
+        if getattr(c_, "search", None) is None and getattr(c_, "home", plan) is plan and (True):
+            c_.search = lambda plan_, c: {"custom": "search_reopen_merges", "native_module": plan_.native_module}
     return plan
